@@ -6,17 +6,14 @@ VERIF = os.path.dirname(os.path.dirname(os.path.abspath(__file__)))
 repo = sys.argv[1]
 props = sys.argv[2].split(",") if len(sys.argv) > 2 else [c["property_id"] for c in json.load(open(os.path.join(VERIF, "MANIFEST.json")))["checks"]]
 bk = tempfile.mkdtemp(prefix="rsav-ev-")
-shutil.copytree(os.path.join(VERIF, "evidence"), os.path.join(bk, "evidence"))
 fired = {}
 try:
     for p in props:
-        r = subprocess.run([os.path.join(VERIF, "check"), p], cwd=VERIF, env=dict(os.environ, RSAV_REPO=repo), stdout=subprocess.PIPE, stderr=subprocess.STDOUT, text=True)
+        r = subprocess.run([os.path.join(VERIF, "check"), p], cwd=VERIF, env=dict(os.environ, RSAV_REPO=repo, RSAV_OUT_DIR=bk), stdout=subprocess.PIPE, stderr=subprocess.STDOUT, text=True)
         rules = [l.strip() for l in r.stdout.splitlines() if l.strip().startswith("rule ")]
         if r.returncode != 0:
             fired[p] = rules or [r.stdout[-300:]]
         print("%s rc=%d %s" % (p, r.returncode, ("; ".join(x[:230] for x in rules[:4])) if rules else ""))
 finally:
-    shutil.rmtree(os.path.join(VERIF, "evidence"))
-    shutil.copytree(os.path.join(bk, "evidence"), os.path.join(VERIF, "evidence"))
     shutil.rmtree(bk, ignore_errors=True)
 print("FIRED:", json.dumps({k: len(v) for k, v in fired.items()}))
